@@ -42,7 +42,7 @@ def dec_form(expr, arg, recv):
 def main():
     check = '--check' in sys.argv
     table = json.load(open('/verif/tools/bolt_layouts.json'))
-    raw = json.loads(subprocess.check_output(['/verif/bin/layoutx', f'{REPO}/lnwire', 'Encode', 'Decode']))
+    raw = json.loads(subprocess.check_output(['/verif/bin/layoutx', f'{REPO}/lnwire', 'Encode', 'Decode', 'MsgType', 'Code']))
     meth = {(m['recv'], m['name']): m for m in raw}
     src = open(CF).read()
     if BEGIN in src:
@@ -138,11 +138,26 @@ def main():
                 out += lines
                 nsites += len(lines)
                 if direction == 'Decode': out.append('//@')
+    # dispatch agreement: the number a message announces is the number that makes the reader build that message type
+    for tab, method, factory, param in (('_msgtypes', 'MsgType', 'makeEmptyMessage', 'msgType'), ('_failcodes', 'Code', 'makeEmptyOnionError', 'code')):
+        fac = []
+        out += ['//@', f"//@ // dispatch agreement ({tab[1:]}): T.{method}() == n and {factory}(n) builds a *T"]
+        for t, n in table[tab].items():
+            if t.startswith('_'): continue
+            m = meth.get((t, method))
+            if m is None:
+                errors.append(f'{t}.{method}: method not found'); continue
+            star = '*' if m['ptr'] else ''
+            out += [f"//@ func ({m['recv_name'] or 'x'} {star}{t}) {method}", '//@   props C10', f'//@   ensures result == {n}']
+            fac.append(f'//@   ensures {param} == {n} ==> result1 == nil && typeis(result0, *{t})')
+            nsites += 2
+        out += [f'//@ func {factory}', '//@   props C10'] + fac
     out.append(END)
     for e in errors: print('LAYOUT-MISMATCH', e)
     if check:
         sys.exit(1 if errors else 0)
+    nmsg = sum(1 for k in table if not k.startswith('_'))
     open(CF, 'w').write(head + '\n'.join(out) + tail)
-    print(f'{nsites} layout sites for {len(table) - 1} messages written to {CF}; {len(errors)} mismatches')
+    print(f'{nsites} layout sites for {nmsg} messages written to {CF}; {len(errors)} mismatches')
 
 main()
